@@ -146,9 +146,18 @@ def generate(rng, tier, index, seed):
         if cfg == "asan":
             depth = min(depth, 40000)
         shape = rng.choice(["(+ 1 (count (- n 1)))", "(cons n (count (- n 1)))", "(let ((r (count (- n 1)))) (if (pair? r) (cons n r) (+ 1 r)))",
-                            "(apply + 1 (list (count (- n 1))))", "(car (map (lambda (x) (+ 1 (count (- n 1)))) '(1)))"])
+                            "(apply + 1 (list (count (- n 1))))", "(car (map (lambda (x) (+ 1 (count (- n 1)))) '(1)))",
+                            # the recursive call itself goes through apply (two-argument form and spread form): the stack check of
+                            # APPLY1 is the one that has to grow the stack
+                            "(+ 1 (apply count (list (- n 1))))", "(+ 1 (apply count (- n 1) '()))", "(+ 1 (call-with-values (lambda () (- n 1)) count))",
+                            "(+ 1 (apply count2 (list (- n 1) 'pad 'pad)))",
+                            # not a recursion: one call spreading an n-element list onto the stack
+                            "(apply + (make-list n 1))", "(length (apply list (make-list n 1)))", "(apply + 0 0 (make-list n 1))", "(vector-length (apply vector (make-list n 1)))"])
+        if "(apply + " in shape and "make-list" in shape:
+            # a primitive applied to n spread arguments is compiled into an n-argument wrapper in time quadratic in n (5 s at 50000)
+            depth = min(depth, 20000)
         base = "'()" if "cons n" in shape and "let" not in shape else "0"
-        defs = "(define (count n) (if (= n 0) %s %s))" % (base, shape)
+        defs = "(define (count2 n . rest) (count n)) (define (count n) (if (= n 0) %s %s))" % (base, shape)
         call = "(let ((r (count %d))) (if (pair? r) (length r) r))" % depth
         if kind == "deep-thread":
             call = "(call/cc (lambda (k) (with-exception-handler (lambda (e) (k (list 'thread-raised (if (error-object? e) (error-object-message e) e)))) (lambda () (thread-join! (thread-start! (make-thread (lambda () %s))))))))" % call
